@@ -4,7 +4,7 @@
     unit, list, prod, sumbool, sumor). *)
 Require Extraction.
 Require Import ExtrOcamlBasic.
-From Age Require Import Base Base64 Format FormatIO IO Stream Armor Bech32 Prims Recipients Age KeyFile Plugin SshEnc Cli Crypto.
+From Age Require Import Base Base64 Format FormatIO IO Stream Armor Bech32 Prims Recipients Age KeyFile Plugin SshEnc Cli Crypto CliFlags StreamNonceFacts.
 Extraction Blacklist List String Int Bytes.
 Extraction "model.ml"
   Base.n2b Base.b2n Base.split_on Base.join_on Base.dec_of_N
@@ -12,7 +12,7 @@ Extraction "model.ml"
   Format.parse Format.marshal Format.marshal_stanza Format.read_stanza_bytes Format.marshal_without_mac
   FormatIO.header_writes
   IO.src_read IO.read_full IO.sink_write IO.empty_sink IO.plain_src
-  Stream.encrypt_spec Stream.decrypt_spec Stream.w_run Stream.w_init Stream.run_reader Stream.nonce_of
+  Stream.encrypt_spec Stream.decrypt_spec Stream.w_run Stream.w_init Stream.w_write Stream.w_close StreamNonceFacts.lwrite StreamNonceFacts.w_ops Stream.run_reader Stream.nonce_of
   Armor.armor_bytes Armor.armor_run Armor.aw_run Armor.aw_init Armor.dearmor_from Armor.dearmor Armor.normalize
   Bech32.encode Bech32.decode Bech32.parse_recipient Bech32.recipient_string
   Bech32.parse_identity Bech32.identity_string
@@ -26,5 +26,6 @@ Extraction "model.ml"
   KeyFile.parse_identities KeyFile.parse_recipients KeyFile.cli_parse_identities KeyFile.cli_parse_recipients KeyFile.scan_lines
   Plugin.recipient_client Plugin.identity_client Plugin.transcript Plugin.atoi_zero
   SshEnc.enc_unwrap SshEnc.fresh
+  CliFlags.validate CliFlags.run_cli
   Cli.decrypt_cli Cli.encrypt_cli Cli.keygen_cli Cli.keygen_stdout
   Age.encrypt_history Age.decrypt_open Age.decrypt_bytes Age.decrypt_src Age.label_rule Age.wrap_all.
